@@ -163,3 +163,12 @@ func LineStartOf(src string, holes []Hole, needle string) int {
 func PoisonFiles() []*ast.File  { return nil }
 func PoisonInfo() *types.Info   { return nil }
 func PoisonFset() *token.FileSet { return nil }
+
+// FsetFor returns a file set holding one file (name, content) and the token.Pos of (line, col) in it.
+// Requires 1 <= line <= number of lines of content and col >= 1 within the file.
+func FsetFor(name, content string, line, col int) (*token.FileSet, token.Pos) {
+	fset := token.NewFileSet()
+	f := fset.AddFile(name, -1, len(content))
+	f.SetLinesForContent([]byte(content))
+	return fset, f.LineStart(line) + token.Pos(col-1)
+}
